@@ -33,8 +33,9 @@ def maxNode : List WEdge → Nat → Nat
   | [], n => n
   | e :: es, n => maxNode es (max e.2.1 (max e.1 n))
 
+/-- `for edge in input_edges { heap.push((Reverse(edge.data), heap.len())) }` -/
 def heapOf (inp : List WEdge) : List (Nat × Nat) :=
-  (List.range inp.length).map fun i => ((inp.getD i (0, 0, 0)).2.2, i)
+  inp.zipIdx.map fun p => (p.1.2.2, p.2)
 
 structure Loop where
   heap : List (Nat × Nat)
